@@ -27,6 +27,23 @@ def r_K1():
     return a or b
 
 
+def r_K4():
+    import prettyprinter as pp
+    with warnings.catch_warnings():
+        warnings.simplefilter('ignore')
+        return pp.pformat(pp.trailing_comment([], 'x')) == '[]' or '#' not in pp.pformat([pp.trailing_comment(1, 'x')])
+
+
+def r_K2():
+    import prettyprinter as pp
+    return pp.pformat([None, True], depth=1) == '[None, True]'
+
+
+def r_K5():
+    import prettyprinter as pp
+    return pp.pformat({'k': 1}, depth=1) == "{'k': int(...)}"
+
+
 def r_F1():
     from prettyprinter.doc import group, concat, nest, always_break
     try:
@@ -73,6 +90,16 @@ def r_F6():
             if 'S6(' not in pp.pformat(v, width=w):
                 return True
     return False
+
+
+class R17(str):
+    def __repr__(self):
+        return 'custom'
+
+
+def r_F17():
+    import prettyprinter as pp
+    return "R17('abc')" not in pp.pformat(R17('abc'))
 
 
 def r_F7():
@@ -241,8 +268,12 @@ def match_known(prop, failing, known):
     if 'K1' in ids and kind in ('engine-strict', 'engine-flat-overflow') and 'doc' in failing:
         if _has_group_hardline(tuple_of(failing['doc'])):
             return 'K1'
+    if 'K4' in ids and kind == 'trailing-comment-not-rendered':
+        return 'K4'
     if 'K2' in ids and kind == 'depth-leaf-printed-in-full':
         return 'K2'
+    if 'K5' in ids and kind == 'depth-str-key-printed-in-full':
+        return 'K5'
     if 'K3' in ids and kind == 'cost-family' and failing.get('family') == 'commented_dict_values':
         return 'K3'
     return None
